@@ -2,16 +2,24 @@
 // simulator state (tasks, locks, timers, virtual clock, simulated network and disk, the choice
 // tape) and a task-side API used by the shim packages and by code rewritten by simgen.
 //
-// Exactly one task (a real goroutine) runs at any time. Control is handed over with raw
-// read/write system calls on pipes, which the race detector does not see, so that under -race the
-// only happens-before edges between tasks are those of the program's own synchronisation.
-// Messages carry integers and byte payloads only.
+// Exactly one task (a real goroutine) runs at any time. Control is handed over with the
+// runtime's internal semaphores (the primitive underneath sync.Mutex), reached by linkname.
+// Unlike channels, sync and sync/atomic they carry no race-detector annotations, so under
+// -race the only happens-before edges between tasks are those of the program's own
+// synchronisation. Task-side accesses to the mailbox are confined to //go:norace functions
+// and payloads are copied there, so the detector never sees simulator plumbing.
 package simrt
 
 import (
 	"syscall"
-	"unsafe"
+	_ "unsafe" // linkname
 )
+
+//go:linkname semacquire sync.runtime_Semacquire
+func semacquire(s *uint32)
+
+//go:linkname semrelease sync.runtime_Semrelease
+func semrelease(s *uint32, handoff bool, skipframes int)
 
 // operation codes (task -> kernel)
 const (
@@ -48,13 +56,12 @@ const (
 	opDeadline
 )
 
-const hdrInts = 6
-const hdrLen = hdrInts * 8
-
 // msg is a request from a task to the kernel.
 type msg struct {
 	op, a, b, c, d int64
 	payload        []byte
+	ctx            *taskCtx   // opGo: the new task
+	fd             *feederCtx // opTimerNew: the timer's feeder
 }
 
 // reply is the kernel's answer, delivered when the task is scheduled again.
@@ -66,51 +73,20 @@ type reply struct {
 	payload []byte
 }
 
-//go:norace
-func rawWrite(fd int, b []byte) {
-	for len(b) > 0 {
-		n, _, e := syscall.Syscall(syscall.SYS_WRITE, uintptr(fd), uintptr(unsafe.Pointer(&b[0])), uintptr(len(b)))
-		if e != 0 {
-			if e == syscall.EINTR || e == syscall.EAGAIN {
-				continue
-			}
-			fatal("simrt: pipe write failed: " + e.Error())
-		}
-		b = b[n:]
-	}
-}
+// mbox is the single mailbox: written by the token holder, read by the kernel.
+var mbox msg
+var ksema uint32
 
 //go:norace
-func rawRead(fd int, b []byte) {
-	for len(b) > 0 {
-		n, _, e := syscall.Syscall(syscall.SYS_READ, uintptr(fd), uintptr(unsafe.Pointer(&b[0])), uintptr(len(b)))
-		if e != 0 {
-			if e == syscall.EINTR || e == syscall.EAGAIN {
-				continue
-			}
-			fatal("simrt: pipe read failed: " + e.Error())
-		}
-		if n == 0 {
-			// write end closed: the simulation is over; park this goroutine forever.
-			select {}
-		}
-		b = b[n:]
+func clone(p []byte) []byte {
+	if len(p) == 0 {
+		return nil
 	}
-}
-
-//go:norace
-func rawPipe() (r, w int) {
-	var p [2]int32
-	_, _, e := syscall.RawSyscall(syscall.SYS_PIPE2, uintptr(unsafe.Pointer(&p[0])), uintptr(syscall.O_CLOEXEC), 0)
-	if e != 0 {
-		fatal("simrt: pipe2 failed: " + e.Error())
+	b := make([]byte, len(p))
+	for i := range p { // copy() would call runtime.slicecopy, which is race-annotated
+		b[i] = p[i]
 	}
-	return int(p[0]), int(p[1])
-}
-
-//go:norace
-func rawClose(fd int) {
-	syscall.RawSyscall(syscall.SYS_CLOSE, uintptr(fd), 0, 0)
+	return b
 }
 
 func putInt(b []byte, i int, v int64) {
